@@ -37,8 +37,8 @@ theorem update_spec {d d' : Db} {i n : Nat} {p : Pred} {asg : Asg} (h : update d
     rw [get_put_same]; exact hd
   · cases h
 
-theorem insertQuery_spec {d d' : Db} {n : Nat} {p : Pred} (h : insertQuery d p = some (d', n)) :
-    d'.u = d.u ++ d.t.filter p.eval ∧ d'.t = d.t ∧ n = (d.t.filter p.eval).length ∧
+theorem insertQuery_spec {d d' : Db} {n : Nat} {p : Pred} {j : Bool} (h : insertQuery d p j = some (d', n)) :
+    d'.u = d.u ++ d.t.filter (selQ d p j) ∧ d'.t = d.t ∧ n = (d.t.filter (selQ d p j)).length ∧
     dupFree (keys d'.u) = true := by
   simp only [insertQuery] at h
   split at h
@@ -76,5 +76,35 @@ theorem update_mem {d d' : Db} {i n : Nat} {p : Pred} {asg : Asg} (h : update d 
   · rintro (⟨hx, hp⟩ | ⟨r, hr, hp, rfl⟩)
     · exact ⟨x, hx, by simp [hp]⟩
     · exact ⟨r, hr, by simp [hp]⟩
+
+theorem set_get_ne (r : R) (c c' : Col) (v : Int) (h : c ≠ c') : (r.set c' v).get c = r.get c := by
+  cases c <;> cases c' <;> simp_all [R.set, R.get]
+
+theorem set_get_eq (r : R) (c : Col) (v : Int) : (r.set c v).get c = v := by
+  cases c <;> rfl
+
+theorem foldl_other (r : R) (c : Col) : ∀ (asg : Asg) (acc : R), (∀ ce ∈ asg, ce.1 ≠ c) →
+    (asg.foldl (fun acc ce => acc.set ce.1 (ce.2.eval r)) acc).get c = acc.get c := by
+  intro asg
+  induction asg with
+  | nil => intro acc _; rfl
+  | cons x xs ih =>
+    intro acc h
+    simp only [List.foldl_cons]
+    rw [ih _ (fun ce hce => h ce (List.mem_cons_of_mem _ hce))]
+    exact set_get_ne _ _ _ _ (fun he => h x List.mem_cons_self he.symm)
+
+/-- a column that the `set` list does not mention keeps its value -/
+theorem applyAsg_other (asg : Asg) (r : R) (c : Col) (h : ∀ ce ∈ asg, ce.1 ≠ c) :
+    (applyAsg asg r).get c = r.get c :=
+  foldl_other r c asg r h
+
+/-- the last assignment of a column decides: its expression evaluated on the selected row -/
+theorem applyAsg_single (r : R) (c : Col) (e : SetE) (pre post : Asg)
+    (h2 : ∀ ce ∈ post, ce.1 ≠ c) :
+    (applyAsg (pre ++ (c, e) :: post) r).get c = e.eval r := by
+  unfold applyAsg
+  rw [List.foldl_append, List.foldl_cons, foldl_other r c post _ h2]
+  exact set_get_eq _ _ _
 
 end Gsu.Act
